@@ -75,6 +75,8 @@ T = {
          "Structural necessary conditions of the repair outcome report and activation; the repair DCOP's run-time solution is not decided.", "ast parser", "4/C27"),
  "C21": ("thread-confinement who-may-call analysis over a typed call graph (ast): foreign-thread roots must not reach computation callbacks except through the message queue",
          "Start/handlers/pause/stop/periodic actions are reachable only from Agent._run; every foreign entry point (orchestrator API and timers, commands, comm-layer receive paths) reaches them only by posting messages. Discovery callbacks fired during wiring and data races on shared objects are not decided.", "ast parser + call graph", "4/C21"),
+ "C22": ("ast protocol-chain rules: must-pass-through on every path (finished -> end_of_computation -> all-finished guard -> stop -> all-agents-stopped), who-may-write the run status, field/slot agreement of the value-collection chain",
+         "Every link of the termination and value-reporting chains is present on all paths with agreeing message types, fields and guards; status TIMEOUT/STOPPED written only by the timeout/interruption handlers; DPOP finish points. Optimality and schedule-independence are not decided.", "ast parser", "4/C22"),
  "C28": ("ast rules: store-the-checked-value obligation, unknown-parameter raise, declaration/use agreement",
          "prepare_algo_params/check_param_value structure decided on all paths and every param_value use names a declared parameter.", "ast parser", "4/C28"),
  "C30": ("ast rules: R-API (set passed to random.sample), exactly-once constraint per edge",
